@@ -7,7 +7,7 @@ import (
 	rmath "github.com/regen-network/regen-ledger/types/v2/math"
 )
 
-type rmathDec = rmath.Dec
+type c19DecT = rmath.Dec
 
 func c19MustDec(s string) rmath.Dec {
 	d, err := rmath.NewDecFromString(s)
@@ -25,4 +25,4 @@ func c19MustRatOf(d rmath.Dec) *big.Rat {
 	return r
 }
 
-func repeat(s string, n int) string { return strings.Repeat(s, n) }
+func c19Repeat(s string, n int) string { return strings.Repeat(s, n) }
